@@ -129,7 +129,7 @@ def model_check(v: Verdict, tier: str) -> None:
         v.add_tlc(res, cfg)
         if res.violated:
             v.violation(f"TLC: {res.violated} violated in the buffer model ({cfg})", {"kind": "tlc", "cfg": cfg, "tail": res.stdout[-3000:]})
-    a = tlc.require_ok(tlc.run_tlc("MC_BufferAlgo", "MC_BufferAlgo_asis.cfg", timeout=900), "buffer as-is self-test")
+    a = tlc.require_ok(tlc.run_tlc("MC_BufferAlgo", "MC_BufferAlgo_asis.cfg", timeout=2400), "buffer as-is self-test")
     v.notes["asis_selftest"] = {"AsIsLoopExit=TRUE violates": a.violated}
     if a.violated not in ("OnlyMessages", "Bounded"):
         raise tlc.MachineryError(f"self-test: the as-is loop should violate OnlyMessages/Bounded, got {a.violated}")
